@@ -442,6 +442,9 @@ type checker struct {
 	t     *vlib.T
 	ctx   string
 	class string
+	// quietEmpty: this case is not the representative one (first family, smallest block size) of its shape; the
+	// shape-only finding "query on an empty problem reports less than the minimum" is reported by the representative.
+	quietEmpty bool
 }
 
 // triage (environment C02_TRIAGE=1, never set by the driver) hides failures that
